@@ -309,6 +309,12 @@ pub fn profile_opts(profile: &str) -> GenOpts {
             o.max_funcs = 40;
             o.fuel = 400;
         }
+        "small" => {
+            o.max_funcs = 3;
+            o.fuel = 12;
+            o.names = false;
+            o.customs = false;
+        }
         "mvp" => o.feat = gen::Feat::mvp(),
         "stable" => o.feat = gen::Feat::stable(),
         "exec" => {
@@ -987,4 +993,83 @@ pub fn feature_facts() -> String {
     out.push_str(&format!("NeedsCallIndirectTable1 == {}\n", needs(&base(None, None, false, true, false, vec![I::I32Const(0), I::CallIndirect { type_index: 0, table_index: 1 }]))));
     out.push_str("=============================================================================\n");
     out
+}
+
+// ---- edits (C18, C02) -------------------------------------------------------------------------
+
+pub fn edit_init(inp: &Input) -> Option<Value> {
+    let cfg = Cfg { probe: false, ..Default::default() };
+    let p = run::parse(&inp.bytes, &cfg).ok()?;
+    let mut high = crate::edits::High::default();
+    Some(json!({"id": inp.id, "source": inp.source, "state": crate::edits::slim_state(&p.module, &mut high)}))
+}
+
+/// replay one TLC-generated edit script on the real module; snapshot after every call; then emit (and gc;emit)
+pub fn edits_case(inp: &Input, script: &[Value], tag: &str) -> Value {
+    let cfg = Cfg { probe: false, ..Default::default() };
+    let mut events = vec![];
+    let mut init = Value::Null;
+    for gc in [false, true] {
+        let Ok(p) = run::parse(&inp.bytes, &cfg) else { return json!({"id": inp.id, "source": inp.source, "init": Value::Null, "events": [{"op": "parse-failed"}]}) };
+        let mut m = p.module;
+        let mut high = crate::edits::High::default();
+        let st0 = crate::edits::slim_state(&m, &mut high);
+        if !gc {
+            init = st0;
+        }
+        for e in script {
+            let ret = crate::edits::apply(&mut m, e);
+            if !gc {
+                let mut ev = e.clone();
+                ev["ret"] = ret;
+                ev["state"] = crate::edits::slim_state(&m, &mut high);
+                events.push(ev);
+            }
+        }
+        if gc {
+            if let Err(e) = run::gc(&mut m) {
+                events.push(json!({"op": "emit", "gc": true, "outcome": format!("gc-{}", e), "out_valid": false, "out_error": "", "decl_only_passive": []}));
+                continue;
+            }
+        }
+        match run::emit(&mut m, false) {
+            Ok(e) => {
+                let v = absmod::validate(&e.bytes);
+                // diagnosis aid for the known GC finding: computed on the module emitted *without* the pass
+                let dop = if gc { events.iter().rev().find(|x| x["op"] == "emit").map(|x| x["plain_dop"].clone()).unwrap_or(json!([])) } else { json!([]) };
+                let plain_dop = if !gc { absmod::project(&e.bytes).map(|m| declared_only_by_passive(&m)).unwrap_or_default() } else { vec![] };
+                events.push(json!({"op": "emit", "gc": gc, "outcome": "ok", "out_valid": v.is_ok(), "out_error": run::short(&v.err().unwrap_or_default()), "decl_only_passive": dop, "plain_dop": plain_dop}));
+            }
+            Err(e) => events.push(json!({"op": "emit", "gc": gc, "outcome": format!("emit-{}", e), "out_valid": false, "out_error": "", "decl_only_passive": [], "plain_dop": []})),
+        }
+    }
+    json!({"id": format!("{}~{}", inp.id, tag), "source": inp.source, "init": init, "events": events})
+}
+
+// ---- validity (C02) ---------------------------------------------------------------------------
+
+pub fn valid_cases(inp: &Input) -> Vec<Value> {
+    let in_valid = absmod::validate(&inp.bytes).is_ok();
+    let dop = absmod::project(&inp.bytes).map(|m| declared_only_by_passive(&m)).unwrap_or_default();
+    let mut out = vec![];
+    for gc in [0u32, 1] {
+        for bits in 0..4u32 {
+            let cfg = Cfg { names: bits & 1 == 0, producers: bits & 2 == 0, probe: false, ..Default::default() };
+            let rt = run::roundtrip(&inp.bytes, &cfg, gc);
+            let v = if rt.outcome == "ok" { absmod::validate(&rt.out) } else { Ok(()) };
+            out.push(json!({"id": format!("{}~gc{}~c{}", inp.id, gc, bits), "source": inp.source, "in_valid": in_valid, "pass": if gc == 1 { "gc" } else { "none" },
+                "cfg": format!("names={} producers={}", cfg.names, cfg.producers), "outcome": rt.outcome, "out_valid": rt.outcome == "ok" && v.is_ok(),
+                "out_error": run::short(&v.err().unwrap_or_default()), "decl_only_passive": if gc == 1 { dop.clone() } else { vec![] }}));
+        }
+    }
+    out
+}
+
+/// evenly spaced sample of at most n inputs
+pub fn sample(inputs: Vec<Input>, n: usize) -> Vec<Input> {
+    if n == 0 || inputs.len() <= n {
+        return inputs;
+    }
+    let step = inputs.len() as f64 / n as f64;
+    (0..n).map(|k| inputs[(k as f64 * step) as usize].clone()).collect()
 }
